@@ -268,6 +268,15 @@ Plan single_op_plan(const std::string& property, uint64_t seed, int64_t index, c
     return p;
 }
 
+bool capacity_exception_unjustified(const OpResult& o, const ref::RefResult& r)
+{
+    if (o.out.exc != 6 || o.rend.effective_buffer != BUF_CSTRING || !o.model) return false;
+    int empties = 0;
+    for (const ref::RuleSpec& rs : o.model->g.rules) if (rs.rhs.empty()) ++empties;
+    int64_t cap = int64_t(o.rend.bytes.size()) + 1 + empties + 1;     // cstring_buffer<N>: N = length + 1
+    return !r.step_limit && r.max_depth <= cap;
+}
+
 Violation make_violation(const std::string& prop, const std::string& cls, const std::string& detail, const Plan& p)
 {
     Violation v;
